@@ -583,6 +583,9 @@ func init() {
 			g.Floor("serial_concurrent_sibling_pairs", 4)
 			res.Merge(g)
 			res.Merge(rawx.Run(def, core.Pkgs(concurrentPkgs...)))
+			cb := settingsx.RunCallbackCopy(def, core.Pkgs("./diff/fd"))
+			cb.Floor("slices_handed_to_the_user_function", 12)
+			res.Merge(cb)
 			la := goproto.RunLatch(def, core.Pkgs(concurrentPkgs...))
 			la.Floor("close_once_latches", 1)
 			res.Merge(la)
@@ -825,6 +828,9 @@ func init() {
 			st := settingsx.Run(def, core.Pkgs("./diff/fd"))
 			st.Floor("settings_pointer_parameters", 4)
 			res.Merge(st)
+			cb := settingsx.RunCallbackCopy(def, core.Pkgs("./diff/fd"))
+			cb.Floor("slices_handed_to_the_user_function", 12)
+			res.Merge(cb)
 			g := goproto.Run(def, core.Pkgs("./diff/fd", "./integrate/quad"))
 			g.Floor("serial_concurrent_sibling_pairs", 4)
 			res.Merge(g)
@@ -935,6 +941,8 @@ func dump(argv []string) {
 		res = flagx.RunSentinel(def, core.Pkgs(argv[1:]...))
 	case "statusdrop":
 		res = errx.RunStatusDropped(def, core.Pkgs(argv[1:]...))
+	case "callbackcopy":
+		res = settingsx.RunCallbackCopy(def, core.Pkgs(argv[1:]...))
 	case "workquery":
 		res = flagx.RunWorkQuery(def, core.Pkgs(argv[1:]...))
 	case "betascale":
